@@ -100,6 +100,13 @@ CHECKS = {
             'verdict/image, output layout and names (SerOK), re-parse and error-tree missing/extra/duplicate validated by TLC',
             'Exhaustive over the decision table x naming configurations within the two/three-field class family.',
             'section 7 C15'),
+    'C16': ('explicit TLA+ model of equality / order / hash rule table / frozen / copy / repr over the option cube '
+            '(PaneValue.tla), algebraic laws checked by TLC on the model for all instance triples; every cube point generated as '
+            'a real class, all observers executed on real instances, observations validated by the TLC trace spec',
+            '2^6 option points x 4 per-field flag patterns x instance pairs over 0..2 (same class, other parameterisation of a '
+            'generic, other class, identical object): ==, !=, the four ordering methods (NotImplemented included), hash / '
+            'unhashable per the stdlib table, equal => equal hash, frozen assignment, deletion, set-record on assignment, '
+            'copy / deepcopy / __replace__ (value, set-record, new object, hook runs, re-validation), repr fields.', 'section 7 C16'),
 }
 
 NOT_YET = 'check not built yet (work in progress; see DESIGN.md section 12 build order)'
